@@ -29,6 +29,9 @@ class Burster(Manager):
         super().__init__(sim, spec)
         self.capturing = False
         self.captured: list[dict] = []
+        # replay every sequential order after a burst (linearizability measure)?  Checks that only judge the
+        # responses of the burst switch it off: the replays cost several server restarts per burst
+        self.check_orders = bool(spec.get("check_orders", True))
 
     async def _send(self, method: str, url: str, headers=None, body=None, **kw) -> Response:
         mutating = method != "GET" or "/media/index/" in url or getattr(self, "capture_get", False)
@@ -107,7 +110,7 @@ class Burster(Manager):
                 for i in range(1, len(reqs)):
                     reqs[i] = with_token(reqs[i], tok)
         outcome = burstlib.run_burst(self.sim.world, self.id, reqs, int(st.get("sched", 0)),
-                                     forced=st.get("forced"))
+                                     forced=st.get("forced"), check_orders=self.check_orders)
         # the tokens handed out inside the burst belong to executions that were rolled back or replayed: forget them
         self.api.csrf.clear()
         self.notify("on_burst", st, reqs, outcome)
